@@ -238,4 +238,73 @@ add("C43", "c_mtproto",
     text="Ping returns nil iff a pong with its own id arrived before its deadline, at that instant, else the deadline error at the deadline; Conn.Run ends with an error within the ping timeout of an unanswered keep-alive ping and keeps running otherwise.",
     note="")
 
+
+P4 = {"GOMAXPROCS": "4"}
+add("C04", "c_crypto",
+    [T("TestC04", 40000, 400000, env=P4), T("TestC04Sweep", 1, 1, rapid=False, env=P4), T("TestC04Conn", 400, 4000, pkg="c_mtproto", env=CONN)],
+    pre=["TestRefSelfCheck"],
+    rule="random 2048-bit auth keys (random, leading-zero, constant-byte), edge and random header values, payload lengths 4k over block boundaries, 0..1200, 1.2K..64K, ~1 MiB (0.3%), 8 MiB and ~16 MiB (0.03%), both directions, both Encrypt paths, all 16 low nibbles of the first random byte forced; exhaustive sweep of lengths 0..2048 x 16 nibbles x 2 directions; plus a live mtproto.Conn with CompressThreshold in {-1,1,1024} (no-copy, pre-encoded and gzip paths). non-trivial = payload length mod 16 != 0 or > 16; distinct by (length, nibble, direction)",
+    technique="round-trip PBT (rapid) cross-checked in both directions by an independent MTProto 2.0 reference (own IGE, KDF, msg_key)",
+    text="Impl Encrypt decrypts under the reference to the same header fields and payload, body % 16 == 0, padding in [12,1024]; the other-side impl decrypts through both entry points; reference-encrypted messages with an independently chosen padding decrypt under the impl.",
+    note="The reference (pbt/ref/crypto.go) is anchored by the OpenSSL IGE vectors in TestRefSelfCheck.")
+add("C05", "c_crypto",
+    [T("TestC05", 300000, 2000000, env=P4)],
+    rule="valid ciphertexts (50% impl-produced, 50% reference-produced) under one of 17 mutations: bit flips in key id / msg_key / body / edges, k-bit flips, truncation and extension (aligned and not), block swap/dup, replaced key id, other key with the same id, re-keying, reflection, wrong receiver key, splice. non-trivial = the mutated wire still has a valid length, so rejection must come from key id or msg_key; distinct by case",
+    technique="mutation-based PBT (rapid) with a metamorphic control (the unmutated ciphertext still decrypts)",
+    text="Every mutation that changes a byte yields an error and a nil message from both Decrypt entry points; identity mutations are counted and skipped.",
+    note="Key domain: random keys with <= 7 leading zero bytes (keys invariant under the x=0/8 offset make reflection legitimately acceptable); a 'different key' differs inside bytes MTProto 2.0 reads.")
+add("C06", "c_crypto",
+    [T("TestC06", 200000, 2000000, env=P4), T("TestC06Bind", 200000, 2000000, env=P4)],
+    pre=["TestRefSelfCheck"],
+    rule="uniform auth keys (random / leading zeros / constant bytes), msg keys, plaintexts, both sides; bind parameters (nonce, temp and perm key ids, session, expiry). non-trivial = every case; distinct by input hash",
+    technique="differential PBT (rapid) against reference KDFs written from the MTProto 2.0 / 1.0 specification",
+    text="MessageKey/Keys/OldKeys/MessageKeyV1/KeysV1/Key.ID/AuxHash equal the reference; the bind message decrypts under the permanent key with the v1 KDF and the reference IGE to bind_auth_key_inner with the drawn fields, msg_key = SHA1(envelope)[4:20], padding < 16.",
+    note="Documentation sample vectors are not available offline; anchoring is by OpenSSL IGE vectors and two-way agreement.")
+add("C11", "c_crypto",
+    [T("TestC11", 400000, 3000000, env=P4)],
+    pre=["TestC11Regression_nilNilOnHashMismatch", "TestC11Known"],
+    rule="(key, iv, ciphertext) in classes random, valid (every data length mod 16), valid with a flipped bit / truncated by a block / wrong key / wrong iv, length not a multiple of 16, short. non-trivial = block-aligned ciphertext > 20 bytes; distinct by case",
+    technique="PBT (rapid) with an oracle over the reference IGE decryption",
+    text="Result is (data, nil) with SHA1(data) equal to the first 20 bytes of the reference decryption and data a prefix of the rest within 15 bytes of its end, or (nil, err). (nil, nil) is a violation.",
+    note="")
+add("C13", "c_crypto",
+    [T("TestC13Residue", 1, 1, rapid=False), T("TestC13GP", 1000, 20000, env=P4), T("TestC13DHSweep", 1, 1, rapid=False, env=P4, timeout_thorough=2400),
+     T("TestC13DH", 60, 1000, env=P4, shards=8), T("TestC13Params", 20000, 300000, env=P4), T("TestC13PQ", 300, 4000, env=P4, shards=8),
+     T("TestC10PQ", 3000, 30000, pkg="c_exchange")],
+    rule="(a) exhaustive: all 4492 safe primes 7 <= p < 2^20 x g in -1..9 against Euler's criterion (exhaustive:true for that sub-domain) + random 24..160-bit safe primes; (b) CheckDH over 13 known 2048-bit safe primes x g, and reject candidates (non-safe primes, composite 2r+1, 2047/2049-bit, RSA moduli, p+-2k, random odd); (c) CheckDHParams with g_a/g_b from 13 boundary values and random below/inside/above; (d) DecomposePQ over semiprimes from segmented-sieve windows up to sqrt(2^63) incl. p=q, twin and unbalanced factors, and non-semiprime input (primes, 0, 1). non-trivial = all (a), p != q (d); distinct by input",
+    technique="exhaustive enumeration of the residue sub-domain + PBT (rapid) against number-theoretic references (Euler's criterion, math/big primality, sieve)",
+    text="CheckGP accepts iff g in 2..7 and g^((p-1)/2) = 1 mod p; CheckDH accepts iff p is a 2048-bit safe prime and g passes; CheckDHParams accepts iff strictly inside both ranges; DecomposePQ returns (p, q) ascending with p*q = pq.",
+    note="Fresh 2048-bit safe primes cannot be generated per run (minutes each): 13 fixed ones are used on the accept side.")
+add("C14", "c_crypto",
+    [T("TestC14Pad", 1200, 16000, env=P4, shards=8), T("TestC14Hashed", 1000, 16000, env=P4, shards=8), T("TestC14Lengths", 1, 1, rapid=False, env=P4)],
+    rule="data lengths 0..144 (RSA_PAD) / 0..235 (hashed) with every length forced once (TestC14Lengths) and over-limit lengths, random streams (the >= modulus retry occurs in ~30% of cases), three 2048-bit keys; mutated ciphertexts and foreign keys. non-trivial = data length within the limit; distinct by (length, seed, key)",
+    technique="round-trip + cross-implementation PBT (rapid): reference RSA_PAD encoder and inverse written from the specification",
+    text="The reference inverse accepts the impl's output and recovers data||padding; the reference encoder fed the impl's randomness reproduces the exact ciphertext; the impl decodes reference output; over-limit lengths refused; other key / flipped bit fail.",
+    note="")
+add("C15", "c_crypto",
+    [T("TestC15", 40, 400, env=P4, shards=12), T("TestC15Invalid", 100, 1000, env=P4)],
+    rule="passwords and salts 0..64 bytes incl. non-UTF-8 and empty, client secret a of 256 bytes incl. leading zeros and tiny values, 13 safe-prime groups x valid g, B from the reference verifier or arbitrary 0<B<p; scenarios right password / wrong password / arbitrary B (>= 30% wrong); invalid groups. non-trivial = every case; distinct by inputs",
+    technique="differential PBT (rapid) against a reference SRP client and verifier written from core.telegram.org/api/srp (own PBKDF2-HMAC-SHA512)",
+    text="(A, M1) equals the reference client; the reference verifier accepts exactly when the right password was used; invalid groups make Hash fail.",
+    note="~0.5 s per case (PBKDF2 100000 iterations x 2-3): small case counts in quick.")
+add("C09", "c_exchange",
+    [T("TestC09", 50, 400, env={"GOMAXPROCS": "2"}, shards=12)],
+    rule="client ClientExchange.Run against the in-tree ServerExchange (2/3) or the harness reference server (1/3): random client/server streams, permanent/temporary mode with drawn expiry, DC ids incl. test and negative media ids, 4 transport codecs via the in-tree listener, writes split at drawn points. non-trivial = every case; distinct by parameters",
+    technique="PBT on virtual time (rapid + synctest) with an independent reference key-exchange server (pbt/exserver.go)",
+    text="Both sides finish with the same key, key id (= reference SHA1-derived id) and salt (= reference new_nonce xor server_nonce); key non-zero; temporary mode sets ExpiresAt = now + expires_in.",
+    note="~0.5 s CPU per exchange (2048-bit safe-prime checks on both sides).")
+add("C10", "c_exchange",
+    [T("TestC10", 110, 800, env={"GOMAXPROCS": "2"}, shards=12), T("TestC10PQ", 3000, 30000)],
+    rule="harness scripted server playing one of 37 adversary strategies at a drawn position (own RSA key claiming the trusted fingerprint, untrusted fingerprint, wrong nonce/server_nonce echo at each reply, bit flip in encrypted_answer, answer under a wrong new_nonce, altered inner nonces, composite / non-safe / 2047- / 2049-bit dh_prime, g failing the residue rule, g in {0,1,8,-1}, g_a in {0,1,p-1,p,2^1984,p-2^1984}, wrong new_nonce_hash1, dh_gen_retry/fail, server_DH_params_fail, replay of a previous run, pq > 2^63 / prime / 0 / 1) plus the honest script and g_a just inside the ranges; pq sub-check on the real clock for non-semiprime pq. non-trivial = a mutation applied at a step the client reaches; distinct by (strategy, position, seeds)",
+    technique="adversarial PBT (rapid + synctest) with a reference server; control run of the same script without the mutation",
+    text="Run returns an error for every applied adversarial strategy; the honest script succeeds with the server's key; g_a just inside the ranges passes the parameter checks.",
+    note="")
+add("C12", "c_exchange",
+    [T("TestC12", 80, 600, env={"GOMAXPROCS": "2"}, shards=8), T("TestC12Conn", 60, 500, pkg="c_mtproto", env={"GOMAXPROCS": "2"}, shards=8)],
+    level="fault_enumeration",
+    rule="silent peer at step 1/2/3 (ResPQ, Server_DH_Params, dh_gen) x exchange timeout {1,15,60 s} x caller deadline none/far x permanent/temporary; entry points ClientExchange.Run, mtproto.Conn.Run without PFS, with PFS (stall in the permanent or the temporary exchange), and key regeneration after transport error -404. non-trivial = stall at step 2 or 3, or no caller deadline / non-initial mode; distinct by parameters",
+    technique="fault injection on virtual time (rapid + synctest) with a watchdog: sleep exactly the bound, then require the result",
+    text="From the moment the peer received the request of the stalled step, Run returns an error within the exchange timeout (+1 ms).",
+    note="")
+
 NOT_CLAIMED = {}
